@@ -450,6 +450,23 @@ Section Receive.
       end
     end.
 
+  (* a stream of frames as run / run_async take them off the reader: each body goes through
+     json.loads + handle_message inside its own try / except / finally (content_length is reset
+     whatever happened), so a frame that cannot be decoded or dispatched costs that frame only *)
+  Inductive frame := FJson (j : json) | FGarbage.      (* FGarbage: json.loads raises *)
+  Fixpoint receive_stream (st : pstate) (frames : list frame) : list outcome :=
+    match frames with
+    | [] => []
+    | FGarbage :: r => ODropped None :: receive_stream st r
+    | FJson j :: r => let (st', o) := receive st j in o :: receive_stream st' r
+    end.
+  Fixpoint state_after (st : pstate) (frames : list frame) : pstate :=
+    match frames with
+    | [] => st
+    | FGarbage :: r => state_after st r
+    | FJson j :: r => state_after (fst (receive st j)) r
+    end.
+
   (* the value json.loads hands to structure_message at the top level, when nothing raises *)
   Definition hooked_members (st : pstate) (wire : json) : option (list (list N * pval)) :=
     match wire with
